@@ -119,6 +119,9 @@ func cmdWindow(args []string) {
 		d    int
 		t    *Target
 		zone int
+		// absent: an OCSP response without nextUpdate (the field is optional): the window date is the zero instant,
+		// whatever thisUpdate says
+		absent bool
 	}
 	var jobs []job
 	nb := 0
@@ -141,7 +144,10 @@ func cmdWindow(args []string) {
 					if (oi+bi)%5 == 0 {
 						zone = []int{840, -720, 330}[(oi+di+1)%3]
 					}
-					jobs = append(jobs, job{k, b, d, t, zone})
+					jobs = append(jobs, job{k, b, d, t, zone, false})
+					if k == "ocsp" {
+						jobs = append(jobs, job{k, b, d, t, zone, true})
+					}
 				}
 			}
 		}
@@ -153,6 +159,13 @@ func cmdWindow(args []string) {
 		j := jobs[i]
 		at := j.b.at.Add(time.Duration(j.d) * time.Second)
 		t2, mode := redate(j.t, at, j.zone)
+		if j.absent {
+			cp := *j.t.OCSP
+			cp.NextUpdate = time.Time{}
+			cp.ThisUpdate = at.Add(24 * time.Hour)
+			cp.ProducedAt = at.Add(25 * time.Hour)
+			t2, mode = &Target{Kind: "ocsp", ID: j.t.ID, DER: j.t.DER, OCSP: &cp}, "mem"
+		}
 		modes[i] = mode
 		m, recs := execEvent(byKind[j.kind], j.b.idx, t2, cfg)
 		m["runSt"], m["runDg"] = []int{}, []string{}
